@@ -20,6 +20,8 @@ mod c07;
 mod c09;
 mod c11;
 mod c14;
+mod c17;
+mod jsmini;
 mod c15;
 mod gen;
 mod sexp;
@@ -229,6 +231,8 @@ pub fn eval(out: &mut Out, req: &str) -> String {
         c05::eval(out, op, &args)
     } else if op.starts_with("hash.") || op.starts_with("lbl.") {
         c15::eval(out, op, &args)
+    } else if op.starts_with("js.") {
+        c17::eval(out, op, &args)
     } else if op.starts_with("chk.") {
         c14::eval(out, op, &args)
     } else if op.starts_with("txt.") {
@@ -306,6 +310,7 @@ fn main() {
         "C12" => c11::run_c12(&mut ctx),
         "C13" => c11::run_c13(&mut ctx),
         "C14" => c14::run(&mut ctx),
+        "C17" => c17::run(&mut ctx),
         "C15" => c15::run(&mut ctx),
         "C16" => c16::run(&mut ctx),
         _ => {
